@@ -11,6 +11,7 @@ package main
 // generous deadline whose expiry is an infrastructure error, never a verdict.
 
 import (
+	"strings"
 	"context"
 	"encoding/json"
 	"fmt"
@@ -36,6 +37,22 @@ func (*c13WatchExt) Shutdown(context.Context) error              { return nil }
 func (e *c13WatchExt) NotifyConfig(_ context.Context, conf *confmap.Conf) error {
 	e.ch <- conf.ToStringMap()
 	return nil
+}
+
+// c13MutExt: another ConfigWatcher extension, which edits the configuration it is handed (its own copy, as far as it can
+// know): what it merges in must not show up in what the other watchers are handed
+var c13MutType = component.MustNewType("c13mut")
+
+type c13MutExt struct{}
+
+func (*c13MutExt) Start(context.Context, component.Host) error { return nil }
+func (*c13MutExt) Shutdown(context.Context) error              { return nil }
+func (*c13MutExt) NotifyConfig(_ context.Context, conf *confmap.Conf) error {
+	return conf.Merge(confmap.NewFromStringMap(map[string]any{
+		"zz_injected_by_another_watcher": true,
+		"exporters":                      map[string]any{"zz-injected": map[string]any{"k": "v"}},
+		"service":                        map[string]any{"telemetry": map[string]any{"logs": map[string]any{"level": "debug"}}},
+	}))
 }
 
 type c13ReloadProv struct {
@@ -67,9 +84,9 @@ func c13ReloadCfg(variant int) map[string]any {
 	cfg := map[string]any{
 		"receivers":  map[string]any{"nop": nil},
 		"exporters":  map[string]any{"nop": nil},
-		"extensions": map[string]any{"c13watch": nil},
+		"extensions": map[string]any{"c13watch": nil, "c13mut/a": nil, "c13mut/z": nil},
 		"service": map[string]any{
-			"extensions": []any{"c13watch"},
+			"extensions": []any{"c13mut/a", "c13watch", "c13mut/z"},
 			"telemetry":  tel,
 			"pipelines":  map[string]any{"traces": map[string]any{"receivers": []any{"nop"}, "exporters": []any{"nop"}}},
 		},
@@ -102,6 +119,8 @@ func c13RunCollector(cfgs []map[string]any) ([]map[string]any, error) {
 	ext := &c13WatchExt{ch: make(chan map[string]any, 8)}
 	f.Extensions[c13WatchType] = extension.NewFactory(c13WatchType, func() component.Config { return &struct{}{} },
 		func(context.Context, extension.Settings, component.Config) (extension.Extension, error) { return ext, nil }, component.StabilityLevelStable)
+	f.Extensions[c13MutType] = extension.NewFactory(c13MutType, func() component.Config { return &struct{}{} },
+		func(context.Context, extension.Settings, component.Config) (extension.Extension, error) { return &c13MutExt{}, nil }, component.StabilityLevelStable)
 	prov := &c13ReloadProv{cfgs: cfgs, watcher: make(chan confmap.WatcherFunc, 8)}
 	col, err := otelcol.NewCollector(otelcol.CollectorSettings{
 		BuildInfo: component.NewDefaultBuildInfo(), Factories: func() (otelcol.Factories, error) { return f, nil }, SkipSettingGRPCLogger: true,
@@ -163,6 +182,14 @@ func c13ReloadRun(c c13ReloadCase) (sig, what string, infra error) {
 	fa, fb := map[string]string{}, map[string]string{}
 	c13Flatten("", got[1], fa)
 	c13Flatten("", fresh[0], fb)
+	// every watcher is handed the written configuration, whatever another watcher did with ITS copy
+	for _, m := range []map[string]string{fa, fb} {
+		for k, v := range m {
+			if strings.Contains(k, "zz_injected") || strings.Contains(k, "zz-injected") || (strings.HasSuffix(k, "telemetry::logs::level") && strings.Contains(strings.ToLower(v), "debug")) {
+				return "watcher-handed-another-watchers-edits", fmt.Sprintf("configurations %d,%d: the effective configuration handed to one extension holds %s=%s, which another extension merged into the copy IT was handed", c.A, c.B, k, v), nil
+			}
+		}
+	}
 	if !reflect.DeepEqual(fa, fb) {
 		var diff []string
 		for k, v := range fa {
